@@ -27,6 +27,7 @@ fn main() {
             "C09" => c09::replay(&v["case"]),
             "C10" => c10::replay(&v["case"]),
             "C11" => c11::replay(&v["case"]),
+            "C12" => c12::replay(&v["case"]),
             "C14" => c14::replay(&v["case"]),
             "C15" => c15::replay(&v["case"]),
             "C19" => c19::replay(&v["case"]),
@@ -61,6 +62,7 @@ fn main() {
         "C09" => c09::run(tier),
         "C10" => c10::run(tier),
         "C11" => c11::run(tier),
+        "C12" => c12::run(tier),
         "C14" => c14::run(tier),
         "C15" => c15::run(tier),
         "C19" => c19::run(tier),
